@@ -9,7 +9,13 @@ THEOREMS = ['C11_range_names', 'C11_range_ends', 'C11_range_single', 'C11_bitnam
             # bench.py from TEXT (Model/BenchText.v)
             'C11_bench_lex_render', 'C11_bench_parse_render', 'C11_bench_token_language', 'C11_bench_keyword_assignment_rejected',
             'C11_bench_parse_print', 'C11_bench_any_rendering', 'C11_bench_lex_iff', 'C11_bench_language', 'C11_bench_text_wiring', 'C11_bench_rendering_wiring',
-            'C11_bench_text_node_unique']
+            'C11_bench_text_node_unique',
+            # VerilogTransformer.module, passes 0 / 1 / 1.5 / 2 / output loop (Model/VerilogModule.v)
+            'C11_module_consistent', 'C11_module_io_live', 'C11_module_io_hole_witness', 'C11_module_ports',
+            'C11_module_pin_out', 'C11_module_pin_in', 'C11_module_pins_only', 'C11_module_bit0_lookup_refuted', 'C11_module_bit0_lookup_fixed',
+            'C11_module_assign', 'C11_module_outputs', 'C11_module_example', 'C11_module_example_theorems',
+            'C11_module_branchforks', 'C11_module_branchforks_sets', 'C11_module_branchforks_example',
+            'C11_module_branchforks_name_clash_refuted', 'C11_module_libs_ok', 'C11_module_pin_dict']
 
 WHAT = {
     'parse-raises': 'a netlist in the supported subset is rejected',
@@ -42,6 +48,10 @@ def run(ck):
     ck.prove('C11', THEOREMS)
     rng = random.Random(ck.seed * 7919 + 11)
     fails = []          # (key, what, replay)
+
+    def unknown():
+        """failures that are not recorded as known findings (a known finding must not mask a model / implementation disagreement)"""
+        return [f for f in fails if ck.known_entry(f[0]) is None]
     # ---- correspondence of the helper models ------------------------------------------------------------------
     cases, meta = [], []
     plan = ((vc.range_case, 60, 900), (vc.sigsel_case, 220, 4000), (vc.concat_case, 40, 600), (vc.names_case, 50, 800),
@@ -99,6 +109,19 @@ def run(ck):
     n_main = ck.scale(330, 9000)
     bench_cases = []
     n_bench = 0
+    mod_cases, mod_meta = [], []          # VerilogTransformer.module: (coq case, description)
+    n_mod_net = ck.scale(100, 2400)
+
+    def add_module_cases(text, tl, bf, desc):
+        for c, d, got in vc.module_cases_of(text, tl, bf, desc):
+            mod_cases.append(c)
+            mod_meta.append(d)
+            ck.count(1, 'corr:module:' + desc['stream'] + (':raises-' + d['raises'] if 'raises' in d else ''))
+            ck.nontrivial(('module', c[:200]))
+            if 'name-mismatch' in d:
+                fails.append(('module:name', f'Circuit.name {d["name-mismatch"][0]!r} is not the module name {d["name-mismatch"][1]!r}',
+                              {'component': 'verilog.VerilogTransformer.module', 'input': {'text': text}, 'actual': 'name'}))
+    from kyupy import techlib as _tl
     for i in range(n_main):
         lib = vg.LIBS[i % len(vg.LIBS)]
         net = vg.gen_netlist(rng, lib=lib)
@@ -116,6 +139,9 @@ def run(ck):
                                                                                         'bench': b[0] if b else None,
                                                                                         'bench_meta': ({'stmts': b[1], 'io': b[2], 'names': b[3], 'states': b[4]} if b else None)},
                           'actual': what}))
+        if i < n_mod_net:
+            for bf in (False, True):
+                add_module_cases(text, getattr(_tl, lib), bf, {'stream': 'netlist:' + lib})
         if i < 2:
             ck.sample({'library': lib, 'verilog': text[:400], 'bench': (b[0][:200] if b else None)})
     # statement-order and 1-bit-bus streams (inside the property's quantifier)
@@ -126,6 +152,8 @@ def run(ck):
             fl, b = _one(net, text, rng, want_bench=False)
             ck.count(1, 'stream:' + probe)
             ck.nontrivial(('net', probe, text[:80]))
+            if i < ck.scale(12, 300):
+                add_module_cases(text, getattr(_tl, net.lib), bool(i & 1), {'stream': 'probe:' + probe})
             for key, what in fl:
                 tag = {'assign-order': 'continuous assigns in an order where a source is assigned later in the text',
                        'onebit-nonzero': 'a one-bit bus [k:k], k>0, referenced by its base name',
@@ -139,6 +167,33 @@ def run(ck):
         prob[name] = res
         ck.count(1, f'probe:{name}:{res}')
     ck.cov['probes_outside_subset'] = prob
+    for name, lib, text, expect in vg.probe_texts(rng):
+        for bf in (False, True):
+            add_module_cases(text, getattr(_tl, lib), bf, {'stream': 'outside-subset:' + name})
+    # known finding D33: a wire that is named exactly like the branch fork another instance pin generates (escaped identifier).
+    # The clash text must be the ONLY place where branchforks=True does more than insert 1:1 forks: the control text (same
+    # module, harmless wire name) is reported under the ordinary key.  Both texts also go through the module correspondence.
+    n_clash = [0, 0]
+    for i in range(ck.scale(24, 400)):
+        t_clash, t_ctrl, lib, d = vc.gen_bf_clash(rng)
+        ck.count(1, 'stream:bf-name-clash')
+        for text, is_clash in ((t_clash, True), (t_ctrl, False)):
+            for bf in (False, True):
+                add_module_cases(text, getattr(_tl, lib), bf, {'stream': 'bf-name-clash' if is_clash else 'bf-name-clash-control'})
+            df = vc.bf_diff(text, lib)
+            n_clash[0 if is_clash else 1] += 1 if df else 0
+            if df:
+                key = 'verilog:branchforks:name-clash' if is_clash else 'verilog:branchforks'
+                what = (f'branchforks=True does more than insert 1:1 forks: {df}' +
+                        (f'  [the wire \\{d["clash-name"]}  is named like the branch fork of pin {d["victim"]}]' if is_clash else
+                         '  [directed stream, control text without name clash]'))
+                fails.append((key, what, {'component': 'verilog.VerilogTransformer.module (pass 2, `if s not in c.forks`)',
+                                          'input': dict(d, verilog=text, clash=is_clash), 'actual': df}))
+    ck.cov['bf_name_clash'] = {'clash_texts_differing': n_clash[0], 'control_texts_differing': n_clash[1]}
+    # far outside what a synthesis tool writes: every exception path and quirk of module (tiny name pool)
+    for i in range(ck.scale(560, 9000)):
+        text, tl = vc.gen_wild_module(rng)
+        add_module_cases(text, tl, rng.random() < 0.5, {'stream': 'wild'})
     # ---- Coq evaluation of all cases ----------------------------------------------------------------------------------
     for stmts, text in bench_cases:
         c, d, got = vc.bench_case_of(stmts, text)
@@ -155,18 +210,58 @@ def run(ck):
                   f'declaration + port position table + io_nodes of module, and of the bench elaborator = implementation on {len(cases)} cases '
                   '(results incl. raised exceptions; bench: every node, line, pin and the io list)', ran and not bad, 'correspondence',
                   f'failing cases {bad[:8]} {[meta[b] for b in bad[:2]]} {err}')
+    icases = vc.inst_cases(ck.scale(5000, 40000))
+    msize = 40
+    mchunks = [mod_cases[i:i + msize] for i in range(0, len(mod_cases), msize)] + [icases[i:i + 300] for i in range(0, len(icases), 300)]
+    mouts = ck.coq_eval_many('vm', [vc.mod_cases_file(ch) for ch in mchunks], jobs=12)
+    n_mchunks = (len(mod_cases) + msize - 1) // msize
+    ibad = [j for ok, out in mouts[n_mchunks:] for j in ((cg.parse_nat_list(out) if ok else None) or [])]
+    mbad = [ci * msize + j for ci, (ok, out) in enumerate(mouts[:n_mchunks]) for j in ((cg.parse_nat_list(out) if ok else None) or [])]
+    mran = all(ok and cg.parse_nat_list(out) is not None for ok, out in mouts)
+    merr = next((out[-600:] for ok, out in mouts if not ok), '')
+    n_raise = sum(1 for d in mod_meta if 'raises' in d)
+    ck.obligation(f'Coq model of VerilogTransformer.module (passes 0, 1, 1.5, 2, output loop; Model/VerilogModule.v elab_module) = the real method on '
+                  f'{len(mod_cases)} intercepted calls ({n_raise} of them raise): every node name / kind by index, every line (driver index, pin, reader index, '
+                  'pin) by index, io_nodes incl. holes; the model state passes the executable C09 invariant; lib_ok_b / pins_nodup_b hold on the real '
+                  'pin tables and pin dicts', mran and not mbad, 'correspondence',
+                  f'failing cases {mbad[:8]} {[{k: v for k, v in mod_meta[b].items() if k != "text"} for b in mbad[:2]]} {[mod_meta[b]["text"][:400] for b in mbad[:1]]} {merr}')
+    pcases, pmeta = vc.pintab_cases(vg.LIBS, rng)
+    okp, outp = ck.coq_eval('vt', vc.lib_cases_file(pcases))
+    pbad = cg.parse_nat_list(outp) if okp else None
+    ck.obligation(f'TechLib.cells[kind][1] (pin name -> position, is_output) of every cell kind of the five libraries ({len(pcases)} lookups incl. unknown kinds) '
+                  '= the table derived from the translated library text (Model/VerilogLibPins.v lib_pins_of over Gen/TechLibs.v)', okp and pbad == [],
+                  'correspondence', f'failing {[pmeta[b] for b in (pbad or [])[:4]]} {"" if okp else outp[-400:]}')
+    if pbad and not unknown():
+        fails.append(('module:pin-table', f'TechLib pin table differs from the library text: {pmeta[pbad[0]]}',
+                      {'component': 'techlib.TechLib.__init__', 'input': pmeta[pbad[0]], 'actual': 'pin table differs'}))
+    ck.obligation(f'Coq model of VerilogTransformer.instantiation (pin dict: named, empty, positional and repeated pins; Model/VerilogModule.v mk_pins) = '
+                  f'the real method on {len(icases)} distinct intercepted calls; the dict keys are distinct (pins_nodup)', mran and not ibad, 'correspondence',
+                  f'failing cases {ibad[:6]}')
+    if ibad and not unknown():
+        fails.append(('module:instantiation', 'VerilogTransformer.instantiation builds a different pin dict than its transcription',
+                      {'component': 'verilog.VerilogTransformer.instantiation', 'input': {'case': icases[ibad[0]][:600]}, 'actual': 'pin dict differs'}))
+    if mbad and not unknown():
+        d = mod_meta[mbad[0]]
+        fails.append(('module:model-disagrees', f'VerilogTransformer.module builds a different circuit than its transcription (or raises / does not raise where the '
+                      f'transcription does): branchforks={d["branchforks"]}, stream {d["stream"]}' + (f', raises {d["raises"]}' if 'raises' in d else ''),
+                      {'component': 'verilog.VerilogTransformer.module vs Model/VerilogModule.v', 'input': {k: v for k, v in d.items()}, 'actual': 'see obligation'}))
     ck.obligation(f'oracle ran: {n_main} generated netlists x 2 branchforks settings (+{n_bench} bench renderings, cross-format), '
                   'io order, truth tables, branchforks structure', True, 'oracle')
     ck.rule('generator-owned flat netlists over all five libraries (AND/OR/NAND/NOR/XOR/XNOR/INV/BUF/AOI/OAI/AO/OA/MUX/HA/FA cells, DFF/SDFF), scalar and '
             'bus ports / wires (ascending, descending, offsets, 1-bit), bit / part selects, concatenations (nested), sized constants b/d/h with '
             'truncation, assigns, escaped identifiers, comments / attributes, white space, shuffled statements and pins, unconnected outputs, '
             'constants on pins; exhaustive truth tables up to 10 inputs+states, else 256 patterns; helper methods on random tokens incl. invalid ones')
-    ck.trust('NOT modelled: the lark grammar / lexer of verilog.py, lark itself (bench.py: its behaviour on bench.GRAMMAR is transcribed in Model/BenchText.v '
-             'and compared on every run, code points < 256), and passes 1, 1.5, 2 of VerilogTransformer.module (cell, fork and line '
-             'construction, assigns, constants, branch forks), TechLib lookups, Circuit.substitute: covered by the generator-owned differential oracle only',
-             'modelled, not verified: VerilogTransformer.range/sigsel/concat, SignalDeclaration.names, declaration, pass 0 + position table + io_nodes '
-             'of module, BenchTransformer with the Node/Line constructors (Model/VerilogElab.v; exact correspondence on every run), '
-             'bench.GRAMMAR under lark: lexer, keyword resolution, parser (Model/BenchText.v; exact correspondence on every run)',
+    ck.trust('NOT modelled: the lark grammar / lexer of verilog.py (text -> tree), lark itself (bench.py: its behaviour on bench.GRAMMAR is transcribed in '
+             'Model/BenchText.v and compared on every run, code points < 256), Circuit.substitute / resolve_tlib_cells after parsing: covered by the '
+             'generator-owned differential oracle only',
+             'modelled, not verified: VerilogTransformer.range/sigsel/concat, SignalDeclaration.names, declaration (Model/VerilogElab.v), '
+             'VerilogTransformer.instantiation and the whole of VerilogTransformer.module: passes 0, 1, 1.5, 2 and the output loop on the Node/Line/io_nodes '
+             'model of C09 (Model/VerilogModule.v; the arguments of module are intercepted from the real parser), TechLib pin tables (Model/VerilogLibPins.v), '
+             'BenchTransformer with the Node/Line constructors, bench.GRAMMAR under lark: lexer, keyword resolution, parser (Model/BenchText.v); exact '
+             'correspondence on every run',
+             'findings: the output loop looked the port cell up under the fork name f"{name}[0]" (repaired in afee8a5; C11_module_bit0_lookup_refuted is about '
+             'the old loop, C11_module_bit0_lookup_fixed about the current one); a signal named like a generated branch fork is captured when '
+             'branchforks=True (known finding D33, C11_module_branchforks_name_clash_refuted, exercised by the directed name-clash stream on every run)',
              'cell functions of the oracle are the datasheet families of C19 (family_of / family_fn); a floating cell input has no defined value and is '
              'not generated; an escaped scalar \\\\k[7]  and bit 7 of a bus k are the same name for kyupy: such collisions are not generated')
     ck.assumptions.append('theorems range over the transcribed helper functions; ranges use non-negative bounds (the lexer admits digits only)')
@@ -176,14 +271,16 @@ def run(ck):
     for key, lst in seen.items():
         what, rp = min(lst, key=lambda x: len(str(x[1])))      # the smallest failing input of each kind
         ck.fail(key, f'{what}  ({len(lst)} failing inputs of this kind)', rp)
-    if not fails and tbad:
+    if not unknown() and tbad:
         ck.fail('model-disagrees-text', 'Coq model of the bench text level and lark disagree', {'component': 'Model/BenchText.v', 'input': tmeta[tbad[0]]}, found_input=False)
-    if not fails and bad:
+    if not unknown() and bad:
         ck.fail('model-disagrees', 'Coq model and implementation disagree', {'component': 'Model/VerilogElab.v', 'input': meta[bad[0]]}, found_input=False)
 
 
 def replay(rp):
     inp = rp['input']
+    if inp.get('kind') == 'bf-clash':
+        return vc.bf_diff(inp['verilog'], inp['lib']) is not None
     if inp.get('kind') in ('bench-text', 'bench-print'):
         return True     # text cases are regenerated from the seed; the text and what lark did with it are in the replay
     if 'netlist' in inp:
